@@ -1137,6 +1137,6 @@ def judge_errors(spec, rec):
 PARTS = [
     Part('ranges', 'enum', judge_ranges, items=items_ranges, exhaustive=True),
     Part('errors', 'enum', judge_errors, items=items_errors, exhaustive=True),
-    Part('sums', 'hyp', judge_value, strategy=strat_sums, budget={'quick': 4000, 'thorough': 80000}),
-    Part('infinite', 'hyp', judge_value, strategy=strat_infinite, budget={'quick': 600, 'thorough': 8000}),
+    Part('sums', 'hyp', judge_value, strategy=strat_sums, budget={'quick': 4000, 'thorough': 150000}),
+    Part('infinite', 'hyp', judge_value, strategy=strat_infinite, budget={'quick': 600, 'thorough': 15000}),
 ]
